@@ -164,6 +164,10 @@ def classify(v):
     if m == 0:
         return None
     log_r = (math.log2(m) + e2) / math.log2(r)      # log_r(value)
+    # the fraction round-up back-trace increments a digit without carrying: the character after the largest digit appears
+    bad = gens.digit_after_max(r)
+    if bad is not None and bytes([bad]) in body:
+        return "generic-radix-roundup-invalid-digit"
     # positional output of a value < 1 whose significant digits extend past the 64-character window
     if positional and body[:1] == b"0" and body[1:2] == bytes([dp]) and log_r < -(64 - 60.0 / math.log2(r) - 4):
         return "generic-radix-positional-small-truncated"
